@@ -251,6 +251,11 @@ class Executor:
         self.assume_wf(i)
     return w
 
+  def assume_state_wf(self, names):
+    for n in names:
+      if n.startswith('HELD_'):
+        self.path.assume(self.G[n].e >= 0)
+
   def truth(self, w, node=None):
     """z3 Bool of Python truthiness (may fork for 'may raise' policy)."""
     if isinstance(w, VObj) and self.contract.val_ops_may_raise:
@@ -269,6 +274,7 @@ class Executor:
   def init_state(self):
     for name, kind in self.state_spec.items():
       self.G[name] = self.assume_wf(working_copy(kind.fresh('G0_' + name)))
+    self.assume_state_wf(self.G)
 
   def snapshot_state(self):
     return {k: snapshot(v) for k, v in self.G.items()}
@@ -277,6 +283,7 @@ class Executor:
     for n in names:
       self.G[n] = self.assume_wf(working_copy(self.state_spec[n].fresh(
           self.path.fresh_name(f'{tag}_{n}'))))
+    self.assume_state_wf(names)
 
   # -- name resolution --------------------------------------------------------------
   def lookup(self, name, node=None):
@@ -286,6 +293,10 @@ class Executor:
     if name in fr.closure:
       return fr.closure[name]
     if name in self.G:
+      lockf = self.contract.guarded.get(name)
+      if lockf is not None:
+        self.path.oblige(f'{self.contract.qual}/lock/{name}/accessed_under_lock',
+                         self.G[lockf].e > 0)
       return self.G[name]
     w = self.world.resolve_global(self, fr.fname, name)
     if w is not None:
@@ -322,6 +333,8 @@ class Executor:
       closure[name] = spec(self) if callable(spec) and not isinstance(spec, sym.Kind) \
           else self.fresh(spec, 'free_' + name)
     args = {}
+    if c.cls_param:
+      env[fdef.args.args[0].arg] = VPy('recclass', c.cls_param)
     if c.self_kind is not None:
       sname = fdef.args.args[0].arg
       env[sname] = working_copy(self.fresh(c.self_kind, 'self'))
@@ -373,7 +386,7 @@ class Executor:
     """The contract's parameter list must match the real signature."""
     a = fdef.args
     real = [x.arg for x in a.posonlyargs + a.args + a.kwonlyargs]
-    if c.self_kind is not None:
+    if c.self_kind is not None or c.cls_param:
       real = real[1:]
     declared = list(c.params)
     if real != declared:
@@ -441,7 +454,8 @@ class Executor:
     for name, kind in self.state_spec.items():
       if name in c.modifies:
         continue
-      old, new = self.old[name], self.G[name]
+      base = getattr(self, 'frame_base', None) or self.old
+      old, new = base[name], self.G[name]
       if _same(old, new):
         continue
       self.path.oblige(f'{c.qual}/frame/{how}/{name}', kind.eq(old, new))
@@ -477,6 +491,7 @@ class Executor:
     ctx = self.ctx(result=value, mid=self.cm_mid)
     for cl in c.cm_enter:
       self.path.oblige(f'{c.qual}/enter/{cl.label}', cl.fn(ctx), cl.props)
+    self.check_frame(ctx, 'enter')
     self.cm_body_exc = None
     # the body of the client's `with` runs here: arbitrary but bounded by body_frame
     if c.cm_body_havoc:
@@ -485,6 +500,7 @@ class Executor:
     for cl in c.cm_body_assume:
       self.path.assume(cl.fn(ctxb))
     self.cm_body_end = self.snapshot_state()
+    self.frame_base = self.cm_body_end    # the exit part is framed against this
     if self.path.choose(2, 'with-body-raises') == 1:
       cls = self.path.fresh_const('bodyexc', sym.ExcCls)
       ident = self.path.fresh_const('bodyexc_id', sym.Val)
